@@ -206,9 +206,9 @@ class Phrase(qcore.Query):
     def replace(self, fieldname, oldtext, newtext):
         q = copy.copy(self)
         if q.fieldname == fieldname:
-            for i, word in enumerate(q.words):
-                if word == oldtext:
-                    q.words[i] = newtext
+            # (A new list: the shallow copy shares the original's word list)
+            q.words = [newtext if word == oldtext else word
+                       for word in q.words]
         return q
 
     def _and_query(self):
